@@ -406,6 +406,20 @@ func (x *X) frameObligations(f *Frame, final *State, spec *FuncSpec, names map[s
 	}
 }
 
+func specMentions(spec *FuncSpec, name string) bool {
+	for _, cl := range spec.Requires {
+		if strings.Contains(cl.Text, name) {
+			return true
+		}
+	}
+	for _, cl := range spec.Ensures {
+		if strings.Contains(cl.Text, name) {
+			return true
+		}
+	}
+	return false
+}
+
 // ghostFrameObligations (abstract mode): ghost globals not listed in modifies are unchanged.
 func (x *X) ghostFrameObligations(f *Frame, final *State, spec *FuncSpec, pos token.Position, suffix string) {
 	c := x.c
@@ -423,6 +437,11 @@ func (x *X) ghostFrameObligations(f *Frame, final *State, spec *FuncSpec, pos to
 	for _, h := range hnames {
 		name := strings.TrimPrefix(h, "$g!")
 		if listed[name] || spec.ModAll {
+			continue
+		}
+		if name != "Store" && !specMentions(spec, name) {
+			// ghost state this contract does not talk about (e.g. the io stream cursor in a
+			// storage handler): an uncontracted callee may have touched it; not this function's claim
 			continue
 		}
 		cur := final.heaps[h]
